@@ -27,6 +27,8 @@ class G:
         self.values = values
         self.max_rows = max_rows
         self.leafnames: list[str] = []
+        self.has_chain: set[str] = set()   # relations whose tree (may) contain a chain
+        self.leaves_of: dict[str, frozenset[str]] = {}   # leaf names a relation reads
         self.emit(["tags", [[n, k] for n, k in TAGS]])
 
     # ------------------------------------------------------------------ basics
@@ -185,6 +187,7 @@ class G:
         self.emit(["leaf", r, engine, cols, rows, mn, "-" if mx is None else mx, name])
         self.cols[r] = frozenset(cols)
         self.eng[r] = engine
+        self.leaves_of[r] = frozenset([name])
         return r
 
     def doomed(self, engine: str, cols=None) -> str:
@@ -194,6 +197,7 @@ class G:
         self.emit(["doomed", r, engine, cols, f"D{self.n}"])
         self.cols[r] = frozenset(cols)
         self.eng[r] = engine
+        self.leaves_of[r] = frozenset([f"D{self.n}"])
         return r
 
     def joinid(self, engine: str) -> str:
@@ -201,6 +205,7 @@ class G:
         self.emit(["joinid", r, engine, f"I{self.n}"])
         self.cols[r] = frozenset()
         self.eng[r] = engine
+        self.leaves_of[r] = frozenset([f"I{self.n}"])
         return r
 
     # ------------------------------------------------------------------ operations
@@ -243,6 +248,9 @@ class G:
         self.emit(["apply", r, target, op, opts or self.opts()])
         self.cols[r] = frozenset(newcols)
         self.eng[r] = self.eng[target]
+        if target in self.has_chain:
+            self.has_chain.add(r)
+        self.leaves_of[r] = self.leaves_of.get(target, frozenset())
         return r
 
     def chain(self, lhs: str, rhs: str) -> str:
@@ -250,6 +258,8 @@ class G:
         self.emit(["chain", r, lhs, rhs])
         self.cols[r] = self.cols[lhs]
         self.eng[r] = self.eng[lhs]
+        self.has_chain.add(r)
+        self.leaves_of[r] = self.leaves_of.get(lhs, frozenset()) | self.leaves_of.get(rhs, frozenset())
         return r
 
     def join(self, lhs: str, rhs: str, pred=None, bt=True, tr=False) -> str:
@@ -257,6 +267,9 @@ class G:
         self.emit(["join", r, lhs, rhs, pred or ["plit", "T"], "T" if bt else "F", "T" if tr else "F"])
         self.cols[r] = self.cols[lhs] | self.cols[rhs]
         self.eng[r] = self.eng[rhs]
+        if lhs in self.has_chain or rhs in self.has_chain:
+            self.has_chain.add(r)
+        self.leaves_of[r] = self.leaves_of.get(lhs, frozenset()) | self.leaves_of.get(rhs, frozenset())
         return r
 
     def mat(self, target: str, name=None) -> str:
@@ -264,6 +277,9 @@ class G:
         self.emit(["mat", r, target, name or f"M{self.n}"])
         self.cols[r] = self.cols[target]
         self.eng[r] = self.eng[target]
+        if target in self.has_chain:
+            self.has_chain.add(r)
+        self.leaves_of[r] = self.leaves_of.get(target, frozenset())
         return r
 
     def transfer(self, target: str, engine: str) -> str:
@@ -271,6 +287,9 @@ class G:
         self.emit(["transfer", r, target, engine])
         self.cols[r] = self.cols[target]
         self.eng[r] = engine
+        if target in self.has_chain:
+            self.has_chain.add(r)
+        self.leaves_of[r] = self.leaves_of.get(target, frozenset())
         return r
 
     def text(self) -> str:
@@ -684,4 +703,198 @@ def prog_multi(seed: int, n_ops: int = 8, *, three: float = 0.3, prefs: float = 
             g.emit(["process", q, r])
             g.emit(["exec", q])
             g.emit(["sqlexec", q])
+    return g
+
+
+def prog_history(seed: int, n_ops: int = 6, n_events: int = 10) -> G:
+    """Histories of attach / execute / process over trees that share materialization nodes (C10)."""
+    g = G(seed, max_rows=4)
+    rng = g.rng
+    g.engine("e0", "iter")
+    two = rng.random() < 0.5
+    if two:
+        g.engine("e1", "sql")
+    g.leaf("e0")
+    g.leaf("e0")
+    if two:
+        g.leaf("e1", cols=sorted(rng.sample(BASE_COLS, 2)))
+    mats: list[str] = []
+    rels: list[str] = []
+    for _ in range(n_ops):
+        t = g.pick()
+        k = rng.random()
+        if k < 0.35 or not mats:
+            r = g.mat(t)
+            mats.append(r)
+        elif k < 0.75:
+            base = rng.choice(mats) if rng.random() < 0.7 else t
+            op, nc = g.rand_op(g.cols[base], allow=("calc", "proj", "sel", "dedup", "sort"))
+            r = g.apply(base, op, nc)
+        elif k < 0.85 and two:
+            r = g.transfer(t, "e0" if g.eng[t] == "e1" else "e1")
+        else:
+            base = rng.choice(mats)
+            cands = [u for u in g.cols if g.cols[u] == g.cols[base] and g.eng[u] == g.eng[base]
+                     and u not in g.has_chain]
+            if base in g.has_chain or not cands:
+                continue
+            r = g.chain(base, rng.choice(cands))
+        rels.append(r)
+    for i in range(n_events):
+        r = rng.choice(rels + mats)
+        k = rng.random()
+        if k < 0.5:
+            g.emit(["exec", r])
+            g.emit(["sem", r])
+            g.emit(["show", r])
+        elif k < 0.7:
+            g.emit(["attach", r])
+            g.emit(["show", r])
+        else:
+            p = f"p{i}"
+            g.emit(["process", p, r])
+            g.emit(["exec", p])
+            g.emit(["sqlexec", p])
+            g.emit(["sem", r])
+            g.emit(["show", r])
+    return g
+
+
+def prog_diag(seed: int, n_ops: int = 7) -> G:
+    """Diagnostics over trees with doomed / identity leaves, trivially false predicates and
+    zero-limit slices, in both engines, with and without a truthful executor (C16)."""
+    g = G(seed, max_rows=3)
+    rng = g.rng
+    eng = rng.choice(["iter", "sql"])
+    g.engine("e0", eng)
+    for _ in range(2):
+        g.leaf("e0", nrows=rng.choice([0, 0, 1, 2, 3]))
+    if rng.random() < 0.5:
+        g.doomed("e0")
+    if rng.random() < 0.3:
+        g.joinid("e0")
+    observed = list(g.cols)
+    for _ in range(n_ops):
+        t = g.pick()
+        k = rng.random()
+        if k < 0.15:
+            r = g.apply(t, ["sel", rng.choice([["plit", "F"], ["and", ["plit", "T"], ["plit", "F"]],
+                                               ["not", ["plit", "T"]], ["or"]])], g.cols[t])
+        elif k < 0.27:
+            a = rng.choice([0, 1, 2])
+            r = g.apply(t, ["slice", a, a, "-"], g.cols[t])
+        elif k < 0.7:
+            allow = ("calc", "dedup", "proj", "sel", "slice") + (("sort",) if eng == "iter" else ())
+            op, nc = g.rand_op(g.cols[t], allow=allow)
+            r = g.apply(t, op, nc)
+        elif k < 0.85:
+            cands = [u for u in g.cols if g.cols[u] == g.cols[t] and u not in g.has_chain]
+            if t in g.has_chain or not cands:
+                continue
+            r = g.chain(t, rng.choice(cands))
+        elif eng == "sql":
+            u = g.pick(pred=lambda u: not ((g.cols[u] & g.cols[t]) & NONKEY) and
+                       not (g.leaves_of.get(u, frozenset()) & g.leaves_of.get(t, frozenset())))
+            if u is None:
+                continue
+            pred = rng.choice([None, ["plit", "F"], g.pred(g.cols[t] | g.cols[u], 1)])
+            r = g.join(t, u, pred)
+        else:
+            r = g.mat(t)
+        observed.append(r)
+    for r in observed:
+        g.emit(["diag", r, "none"])
+        g.emit(["diag", r, "truthful"])
+        g.emit(["sem", r])
+    return g
+
+
+def prog_illformed(seed: int, n_ops: int = 5) -> G:
+    """A well-typed multi-engine program with exactly one injected ill-formed request (C20)."""
+    g = prog_multi(seed, n_ops, three=0.0)
+    rng = g.rng
+    # keep only the build commands
+    g.lines = [ln for ln in g.lines if not ln.startswith(("(process", "(exec", "(sqlexec", "(sem"))]
+    pool = list(g.cols)
+    t = rng.choice(pool)
+    cols = g.cols[t]
+    missing = sorted(set(BASE_COLS + NEW_TAGS) - cols)
+    kinds = ["slice-negative", "slice-reversed", "slice-step", "chain-columns", "engine-mismatch",
+             "unsupported-expression"]
+    if missing:
+        kinds += ["missing-column"] * 4
+    if cols:
+        kinds += ["tag-exists"] * 2
+    kind = rng.choice(kinds)
+    engines = sorted(g.kind)
+    anyopts = g.opts(rng.choice(["-"] + engines), rng.random() < 0.5, rng.random() < 0.5, rng.random() < 0.5)
+    r = g.fresh()
+    cmd = None
+    if kind == "missing-column":
+        m = rng.choice(missing)
+        sub = rng.choice(["calc", "sel", "sort", "proj", "join"])
+        if sub == "calc":
+            tag = rng.choice([x for x in NEW_TAGS + BASE_COLS if x not in cols and x != m] or ["z"])
+            cmd = ["apply", r, t, ["calc", tag, ["fn", "add", "*", ["ref", m], ["lit", 1]]], anyopts]
+        elif sub == "sel":
+            cmd = ["apply", r, t, ["sel", ["pfn", "lt", "*", ["ref", m], ["lit", 1]]], anyopts]
+        elif sub == "sort":
+            cmd = ["apply", r, t, ["sort", ["term", ["ref", m], "asc"]], anyopts]
+        elif sub == "proj":
+            cmd = ["apply", r, t, ["proj", m, *sorted(cols)[:1]], anyopts]
+        else:
+            u = rng.choice(pool)
+            both_missing = sorted(set(BASE_COLS + NEW_TAGS) - cols - g.cols[u])
+            if not both_missing or (g.cols[u] & cols & NONKEY):
+                cmd = ["apply", r, t, ["sel", ["pfn", "lt", "*", ["ref", m], ["lit", 1]]], anyopts]
+            else:
+                cmd = ["join", r, t, u, ["pfn", "lt", "*", ["ref", both_missing[0]], ["lit", 1]],
+                       rng.choice(["T", "F"]), rng.choice(["T", "F"])]
+    elif kind == "tag-exists":
+        tag = rng.choice(sorted(cols))
+        cmd = ["apply", r, t, ["calc", tag, ["fn", "add", "*", ["ref", rng.choice(sorted(cols))], ["lit", 1]]], anyopts]
+    elif kind == "chain-columns":
+        others = [u for u in pool if g.cols[u] != cols and g.eng[u] == g.eng[t]]
+        if not others:
+            kind = "slice-negative"
+        else:
+            cmd = ["chain", r, t, rng.choice(others)]
+    elif kind == "engine-mismatch":
+        others = [u for u in pool if g.eng[u] != g.eng[t]]
+        if not others:
+            kind = "slice-negative"
+        else:
+            u = rng.choice(others)
+            if rng.random() < 0.5 and g.cols[u] == cols:
+                cmd = ["chain", r, t, u]
+            elif not (g.cols[u] & cols & NONKEY):
+                cmd = ["join", r, t, u, ["plit", "T"], "F", "F"]
+            else:
+                kind = "slice-negative"
+    elif kind == "unsupported-expression":
+        if not cols:
+            kind = "slice-negative"
+        else:
+            other = "sql" if g.kind[g.eng[t]] == "iter" else "iter"
+            e = ["fn", "o:special", other, ["ref", rng.choice(sorted(cols))]]
+            opts = g.opts(rng.choice(["-", g.eng[t]]), rng.random() < 0.5, rng.random() < 0.5, rng.random() < 0.5)
+            sub = rng.choice(["calc", "sel", "sort"])
+            tagc = [x for x in NEW_TAGS if x not in cols]
+            if sub == "calc" and tagc:
+                cmd = ["apply", r, t, ["calc", tagc[0], e], opts]
+            elif sub == "sel":
+                cmd = ["apply", r, t, ["sel", ["pfn", "lt", "*", e, ["lit", 1]]], opts]
+            else:
+                cmd = ["apply", r, t, ["sort", ["term", e, "asc"]], opts]
+    if kind == "slice-negative":
+        cmd = ["apply", r, t, ["slice", -rng.randint(1, 3), rng.choice(["-", 2]), "-"], g.opts()]
+    elif kind == "slice-reversed":
+        a = rng.randint(1, 4)
+        cmd = ["apply", r, t, ["slice", a, a - rng.randint(1, a), "-"], g.opts()]
+    elif kind == "slice-step":
+        cmd = ["apply", r, t, ["slice", rng.choice(["-", 0, 1]), rng.choice(["-", 3]), rng.choice([2, 3, -1, 0])], g.opts()]
+    g.emit(["illformed", kind])
+    g.emit(cmd)
+    for p in pool:
+        g.emit(["show", p])
     return g
